@@ -26,7 +26,7 @@ import (
 
 func Main() {
 	mc.Main("C06", "exploration",
-		"scaled block sizes (large=64, small=8, buffer=8, passed as parameters): every .dat size 0..2080 (3 large rows + 2 small rows, crossing every row boundary) with position-dependent content is encoded by the real encoder; the data shards are compared with a reference striping, and reads located by LocateData/ToShardIdAndOffset from the shard-derived size are compared with the original bytes for every 8-aligned offset x every length to the end of the file (quick: on the boundary sizes; elsewhere every offset x lengths {8,40,72,648,to the end}); every subset of 1..4 missing shards is rebuilt by the real rebuilder and compared byte for byte (quick: on 4 sizes, thorough: on every second small-row multiple; a rotating subset of each cardinality on the other boundary sizes / thorough: on all other sizes); real constants: volumes of real needles with sizes around 10 and 20 MiB through WriteEcFiles / LocateEcShardNeedle / RebuildEcFiles / FindDatFileSize / WriteDatFile, and LocateData arithmetic around k*10 GiB against the reference striping; distinct = (phase, row class of the size, outcome)",
+		"scaled block sizes (large=64, small=8, buffer=8, passed as parameters): every .dat size 0..2080 (3 large rows + 2 small rows, crossing every row boundary) with position-dependent content is encoded by the real encoder; the data shards are compared with a reference striping, and reads located by LocateData/ToShardIdAndOffset from the shard-derived size are compared with the original bytes for every 8-aligned offset x every length to the end of the file on the boundary sizes (quick: 41 sizes around the large-row boundaries; thorough: every small-row multiple +-1) and elsewhere every offset x lengths {8,40,72,648,to the end} (quick) / every multiple of 8 (thorough); every subset of 1..4 missing shards is rebuilt by the real rebuilder and compared byte for byte (quick: on 4 sizes, thorough: on every second small-row multiple; a rotating subset of each cardinality on the other boundary sizes / thorough: on all other sizes); real constants: volumes of real needles with sizes around 10 and 20 MiB through WriteEcFiles / LocateEcShardNeedle / RebuildEcFiles / FindDatFileSize / WriteDatFile, and LocateData arithmetic around k*10 GiB against the reference striping; distinct = (phase, row class of the size, outcome)",
 		run)
 }
 
@@ -240,7 +240,7 @@ func scaledSize(r *mc.Run, dir string, datSize int64, boundary, everySubset bool
 	r.Case("scaled|layout|" + cls + "|ok")
 
 	// reads
-	allLengths := boundary || !r.Quick()
+	allLengths := boundary
 	var reads, bad int64
 	outcomes := map[string]bool{}
 	one := func(off, size int64) {
@@ -263,6 +263,15 @@ func scaledSize(r *mc.Run, dir string, datSize int64, boundary, everySubset bool
 			for size := int64(1); off+size <= datSize; size++ {
 				one(off, size)
 			}
+			continue
+		}
+		if !r.Quick() {
+			// thorough, away from the boundaries: every record length that is a multiple of 8 (what
+			// GetActualSize produces) and the read to the end of the file
+			for size := int64(8); off+size < datSize; size += 8 {
+				one(off, size)
+			}
+			one(off, datSize-off)
 			continue
 		}
 		// quick, away from the boundaries: a few record lengths and the read to the end of the file
@@ -463,6 +472,15 @@ func run(r *mc.Run) {
 	// representative of each subset size everywhere else
 	every := map[int64]bool{1: true, 80: true, 640: true, maxDat: true}
 	if !r.Quick() {
+		// thorough: every small-row multiple and its neighbours get every read length
+		for k := int64(0); k*nData*small <= maxDat; k++ {
+			for d := int64(-1); d <= 1; d++ {
+				if x := k*nData*small + d; x >= 0 && x <= maxDat {
+					bs[x] = true
+				}
+			}
+		}
+		r.Set("boundary_sizes_with_every_read_length", len(bs))
 		for k := int64(0); k*nData*small <= maxDat; k += 2 {
 			every[k*nData*small] = true
 		}
